@@ -390,10 +390,13 @@ func (d *dagWrap) Get(ctx context.Context, c cid.Cid) (ipld.Node, error) {
 		if iso {
 			return nil, ipld.ErrNotFound{Cid: c}
 		}
+		atomic.AddInt64(&w.blocked, 1)
 		select {
 		case <-ctx.Done():
+			atomic.AddInt64(&w.blocked, -1)
 			return nil, ctx.Err()
 		case <-chg:
+			atomic.AddInt64(&w.blocked, -1)
 		}
 	}
 }
